@@ -18,6 +18,10 @@ T = {
          "Trusts go/ssa, SQLite 3.45 parser from go-sqlite3, the assumption that flag sets hold <= 16 flags, and that access paths are not reassigned between the query construction and its use.",
          "symbolic extraction of embedded SQL + polynomial arity comparison + SQLite-as-parser + typestate rules on SSA", "DESIGN.md 4/C08"),
 
+ "C17": ("Static analysis: every transaction call that grows a limited quantity (the four mailbox-creating and two message-inserting db.Transaction methods; 10 sites) is dominated, in a function holding the same transaction (followed up to 3 caller frames through the parameter that carries it), by the matching limits.IMAP.Check* whose count argument is read from that transaction; for inserts in a loop the check is inside the loop or receives a len(batch) term; in the inserting function the check counts the mailbox inserted into and is told len(inserted list) (or 1); limit errors of every Check* call are returned from the transaction closure (rollback). Exemptions (table in evidence): the recovery-mailbox insert of a refused APPEND and newUser's one-time recovery mailbox. Arithmetic exactness of the count expression (off-by-one), remote side effects made before a refusal, and 'operations that fit are still accepted' are not decided.",
+         "Trusts go/ssa dominators and the rule table of growth methods (a new db.Transaction method that inserts rows must be added to the table; R17.1's site count guards against the table matching nothing).",
+         "dominator-based check-before-insert rule with transaction identity, loop multiplicity and argument agreement on SSA + error-propagation rule", "DESIGN.md 4/C17"),
+
  "C16": ("Static analysis: (1) the number parser rejects, on every accumulation step, values above a constant <= 2^32-1, and every conversion to the 32-bit SeqID/UID types in internal/state has a bounded operand, so no message-set number can be truncated or wrapped onto another message; (2) every consumer of resolved sequence intervals checks both ends against the view before use (per iteration, dominating the use, or in a universal error-returning check loop); (3) no UID/SeqID value or difference is reinterpreted in a narrower or signed 32-bit type; (4) loops over a set's intervals are left only by exhaustion or return (result independent of the order in which the set was written). The set algebra itself (range normalisation, '*') is not decided.",
          "Trusts go/ssa; rule tables of view-bound check functions are derived structurally (SeqID parameter compared with len(list.msg)).",
          "dominator-based bound-check rules + conversion/type-width lint over SSA + loop-exit shape rule", "DESIGN.md 4/C16"),
